@@ -361,6 +361,7 @@ OPEN_PATH = [
     ("ttLib/sfnt.py", "DirectoryEntry.fromFile"),
     ("ttLib/sfnt.py", "DirectoryEntry.loadData"),
     ("ttLib/sfnt.py", "WOFFFlavorData.__init__"),
+    ("ttLib/sfnt.py", "WOFFDirectoryEntry.decodeData"),  # reached from loadData on first access of a table
     ("ttLib/woff2.py", "WOFF2Reader.__init__"),
     ("ttLib/woff2.py", "WOFF2DirectoryEntry.fromString"),
     ("ttLib/woff2.py", "WOFF2DirectoryEntry.fromFile"),
